@@ -130,6 +130,10 @@ func c34newWorld(byz uint32) *c34world {
 		}
 		add("X:commit("+tag+",E=junk all)", "junk-endorser-sigs", &blockCommitMsg{Committer: f, BlockProposer: pr, BlockNum: c34H, CommitBlockHash: bh, EndorsersSig: es, CommitterSig: sign(bh)})
 		add("X:commit("+tag+",E=none)", "", &blockCommitMsg{Committer: f, BlockProposer: pr, BlockNum: c34H, CommitBlockHash: bh, EndorsersSig: map[uint32][]byte{}, CommitterSig: sign(bh)})
+		// well-formed endorsement / commit for the EMPTY variant of the proposal
+		eh := p.Block.EmptyBlock.Hash()
+		add("X:endorseEmpty("+tag+")", "", &blockEndorseMsg{Endorser: f, EndorsedProposer: pr, BlockNum: c34H, EndorsedBlockHash: eh, EndorseForEmpty: true, EndorserSig: sign(eh)})
+		add("X:commitEmpty("+tag+",E=none)", "", &blockCommitMsg{Committer: f, BlockProposer: pr, BlockNum: c34H, CommitBlockHash: eh, CommitForEmpty: true, EndorsersSig: map[uint32][]byte{}, CommitterSig: sign(eh)})
 	}
 	return w
 }
